@@ -10,8 +10,10 @@ for d in sorted(glob.glob('/verif/seeded/*/meta.json')):
     if len(s) > 230: s = s[:227] + '...'
     if len(n) > 200: n = n[:197] + '...'
     det = ', '.join(x.replace('.quick', ' quick') for x in m['detected_by'])
+    if m.get('undetected_documented_limit'):
+        det = '**none** (documented limit, §13)'
     hist = (m.get('history') or '').replace('|', '/').replace('\n', ' ')
-    if hist.startswith('first run:') or hist.startswith('would not') or hist.startswith('first run would'):
+    if hist.startswith('first run:') or hist.startswith('would not') or hist.startswith('first run would') or hist.startswith('NOT DETECTED') or hist.startswith('C18 quick did not detect it when'):
         first_missed += 1
     rows.append(f"| `{m['name']}` | {s} | {n} | {det} | {hist[:330]} |")
 table = "\n".join(rows)
